@@ -173,11 +173,14 @@ def stale_entries(ctx, T):
     n = 0
     for name in sorted(T.move_fns):
         f = F.fn(name)
-        rem = [o for o in T.ops if o["fn"] is f and o["kind"] == "remove"]
-        ins = [o for o in T.ops if o["fn"] is f and o["kind"] == "insert"]
         n += 1
-        ok = len(rem) == 1 and len(ins) == 1 and rem[0]["shard_arg"] is not None and ins[0]["shard_arg"] is not None and \
-            strip_site(rem[0]["shard_arg"]) != strip_site(ins[0]["args"][1]) and f.must_pass([0], [rem[0]["bb"]])
+        seqs = T.root_paths.get(name) or []
+        ok = bool(seqs)
+        for seq in seqs:
+            rem = [o for o in seq if o["kind"] == "remove"]
+            ins = [o for o in seq if o["kind"] == "insert"]
+            ok = ok and len(rem) == 1 and len(ins) == 1 and rem[0]["shard_arg"] is not None and ins[0]["shard_arg"] is not None and \
+                strip_site(rem[0]["shard_arg"]) != strip_site(ins[0]["args"][1])
         ctx.check(ok, "R03.3", "%s|old-index-entry-removed" % name,
                   "changing a TTL removes the id from the shard of its previous expiry on every path (otherwise the stale entry later evicts the live key)", f.where())
     ctx.floor("R03.3", "expiry-index move functions", n, 1)
